@@ -36,6 +36,11 @@ CLAIMS = {
          "polynomials, Euler identity), literal face tables, positional forwarding, parameter homogeneity", "4/C14"),
  "C15": ("threshold constants and comparators under all orderings, write-only-True flag sources, endpoint pairing of feature vertices, "
          "running offsets of the border extractor", "4/C15"),
+ "C16": ("the clauses of the statement that are visible in the shape of the code: one output face per input face in the same order and arity, "
+         "each corner copy placed at the position of its input vertex under a running offset, vertex copies merged only across interior edges that "
+         "are not reported as cut and only between copies of the same vertex (tuple-role provenance of direct_face), reference map inverse of the "
+         "duplicate table, cut graph = complement of the dual tree with symmetric adjacency, pruning of non-singular leaves only. The topological "
+         "clauses (disk, one border loop, chi = 1, connectivity of the cut graph) are NOT decided", "4/C16 and 10.6"),
  "C17": ("Euler gate dominates the solve, first parameter of each square side differs from the preceding corner (affine forms), border order "
          "source, per-corner / per-vertex sibling agreement", "4/C17"),
  "C18": ("constrained stores only through the free partition, normalisation after the last write on every path, Hermitian pairing of the "
@@ -45,13 +50,9 @@ CLAIMS = {
  "C20": ("lock-step book-keeping of union-find add/union, read-only queries, no numpy coercion of element collections, bounds predicates, "
          "heap is written only through heapq, comparison on priority only", "4/C20"),
 }
-NA = {
- "C16": "global topological invariant (one component, one border loop, chi = 1) of a graph computed at run time; no clause of the statement is "
-        "visible in the shape of the code, and the Dijkstra loops / running offsets of cutting.py are covered as siblings under C09 without "
-        "deciding C16 (DESIGN section 4, C16)",
-}
+NA = {}
 
-READY = {"C01", "C02", "C03", "C04", "C05", "C06", "C07", "C08", "C09", "C10", "C11", "C12", "C13", "C14", "C15", "C17", "C18", "C19", "C20"}
+READY = {"C01", "C02", "C03", "C04", "C05", "C06", "C07", "C08", "C09", "C10", "C11", "C12", "C13", "C14", "C15", "C16", "C17", "C18", "C19", "C20"}
 
 def main():
     checks, na = [], []
